@@ -113,20 +113,15 @@ def radio (w : World) (i : Nat) : Radio := w.radios.getD i default
 
 def setRadio (w : World) (i : Nat) (r : Radio) : World := { w with radios := w.radios.set i r }
 
+/-- what each radio does with packet `k` sent by radio `s` -/
+def deliverEach (w : World) (s : Nat) (k : Packet) : List (Radio × Option (Option Bytes)) :=
+  w.radios.zipIdx.map fun (r, i) => if i = s then (r, none) else r.receive k
+
 /-- deliver packet `k` (sent by radio `s`) to every other radio; returns the first
     acknowledgement, if any -/
 def deliver (w : World) (s : Nat) (k : Packet) : World × Option (Option Bytes) :=
-  let rec go (rs : List Radio) (i : Nat) (acc : List Radio) (ack : Option (Option Bytes)) :
-      List Radio × Option (Option Bytes) :=
-    match rs with
-    | [] => (acc.reverse, ack)
-    | r :: rest =>
-      if i = s then go rest (i + 1) (r :: acc) ack
-      else
-        let (r', a) := r.receive k
-        go rest (i + 1) (r' :: acc) (if ack.isSome then ack else a)
-  let (rs, ack) := go w.radios 0 [] none
-  ({ w with radios := rs }, ack)
+  let res := w.deliverEach s k
+  ({ w with radios := res.map (·.1) }, (res.filterMap (·.2)).head?)
 
 def nextFault (w : World) : World × Outcome :=
   match w.faults with
@@ -152,48 +147,82 @@ def attemptLoop (s : Nat) (k : Packet) : Nat → Nat → World → World × Nat 
       | some a => if canHear then (w, made + 1, some a) else attemptLoop s k left (made + 1) w
       | none => attemptLoop s k left (made + 1) w
 
-/-- one transmit cycle of radio `s` for the head of its TX FIFO (precondition checked by caller) -/
+/-- apply `f` to radio `s` -/
+def updRadio (w : World) (s : Nat) (f : Radio → Radio) : World := w.setRadio s (f (w.radio s))
+
+/-- record the end time of radio `s`'s cycle and log it -/
+def stamp (w : World) (s : Nat) (t : Nat) (a : AirRec) : World :=
+  { w with busyUntil := w.busyUntil.set s t, air := w.air ++ [a] }
+
+end World
+
+namespace Radio
+
+/-- PID of entry `e` when sent now -/
+def pidFor (r : Radio) (e : TxEntry) : Nat := e.pid.getD r.nextPid
+
+/-- a new payload consumes a PID -/
+def takePid (r : Radio) (e : TxEntry) : Radio :=
+  { r with nextPid := if e.pid.isNone then (r.nextPid + 1) % 4 else r.nextPid }
+
+def noAckFor (r : Radio) (e : TxEntry) : Bool := e.kind = .payloadNoAck && (r.feature &&& 1 ≠ 0)
+
+/-- the packet radio `r` puts on the air for entry `e` -/
+def packetFor (r : Radio) (e : TxEntry) : Packet :=
+  { ch := r.rfCh, rate := r.rate, crc := r.crcLen, esb := r.esb, dpl := r.esb && r.dplOn 0,
+    addr := r.txAddr.take r.aw, pid := r.pidFor e, noAck := r.noAckFor e, data := e.data }
+
+/-- does the transmitter wait for an acknowledgement -/
+def awaitsAck (r : Radio) (e : TxEntry) : Bool := r.esb && bit r.enAA 0 && !r.noAckFor e
+
+/-- transmitter after a packet that needs no acknowledgement -/
+def txDoneNoAck (r : Radio) (rest : List TxEntry) : Radio :=
+  { r with txFifo := rest, flags := r.flags ||| 0x20, arcCnt := 0 }
+
+/-- transmitter after an acknowledged packet (`made` attempts, ACK payload `a`) -/
+def txDoneAcked (r : Radio) (rest : List TxEntry) (made : Nat) (a : Option Bytes) : Radio :=
+  let gets := match a with
+    | some _ => (r.feature &&& 2 ≠ 0) && r.dplOn 0 && r.rxFifo.length < 3
+    | none => false
+  { r with txFifo := rest, arcCnt := made - 1,
+           flags := r.flags ||| 0x20 ||| (if gets then 0x40 else 0),
+           rxFifo := if gets then r.rxFifo ++ [{ pipe := 0, data := a.getD [] }] else r.rxFifo }
+
+/-- transmitter after all attempts failed: MAX_RT, the payload stays (keeping its PID) -/
+def txFailed (r : Radio) (e : TxEntry) (pid : Nat) (rest : List TxEntry) : Radio :=
+  { r with txFifo := { e with pid := some pid } :: rest, flags := r.flags ||| 0x10,
+           arcCnt := r.setupRetr &&& 0x0F, plosCnt := min 15 (r.plosCnt + 1) }
+
+end Radio
+
+namespace World
+
+/-- one transmit cycle of radio `s` for the head `e` of its TX FIFO (`rest` = the other entries;
+    precondition checked by the caller) -/
 def cycle (w : World) (s : Nat) (e : TxEntry) (rest : List TxEntry) : World :=
-  let r := w.radio s
-  let pid := e.pid.getD r.nextPid
-  let r := if e.pid.isNone then { r with nextPid := (r.nextPid + 1) % 4 } else r
-  let noAck := e.kind = .payloadNoAck && (r.feature &&& 1 ≠ 0)
-  let k : Packet := { ch := r.rfCh, rate := r.rate, crc := r.crcLen, esb := r.esb,
-                      dpl := r.esb && r.dplOn 0, addr := r.txAddr.take r.aw, pid := pid,
-                      noAck := noAck, data := e.data }
-  let await := r.esb && Radio.bit r.enAA 0 && !noAck
+  let r0 := w.radio s
+  let k := r0.packetFor e
+  let pid := r0.pidFor e
   let start := max w.clock (w.busyUntil.getD s 0)
-  if !await then
-    let w := w.setRadio s r
+  let w := w.updRadio s (·.takePid e)
+  if !r0.awaitsAck e then
     let (w, o) := w.nextFault
-    let (w, _) := if o = .packetLost then (w, none) else w.deliver s k
-    let r := w.radio s
-    let r := { r with txFifo := rest, flags := r.flags ||| 0x20, arcCnt := 0 }
-    { (w.setRadio s r) with busyUntil := w.busyUntil.set s (start + T_TX_NS),
-                            air := w.air ++ [{ sender := s, pkt := k, attempts := 1, ok := true }] }
+    let w := if o = .packetLost then w else (w.deliver s k).1
+    (w.updRadio s (·.txDoneNoAck rest)).stamp s (start + T_TX_NS)
+      { sender := s, pkt := k, attempts := 1, ok := true }
   else
-    let w := w.setRadio s r
-    let arc := r.setupRetr &&& 0x0F
-    let (w, made, ack) := attemptLoop s k (arc + 1) 0 w
-    let r := w.radio s
-    match ack with
+    let arc := r0.setupRetr &&& 0x0F
+    let res := attemptLoop s k (arc + 1) 0 w
+    let w := res.1
+    let made := res.2.1
+    match res.2.2 with
     | some a =>
-      let r := { r with txFifo := rest, flags := r.flags ||| 0x20, arcCnt := made - 1 }
-      let r := match a with
-        | some d =>
-          if (r.feature &&& 2 ≠ 0) && r.dplOn 0 && r.rxFifo.length < 3 then
-            { r with rxFifo := r.rxFifo ++ [{ pipe := 0, data := d }], flags := r.flags ||| 0x40 }
-          else r
-        | none => r
-      { (w.setRadio s r) with
-          busyUntil := w.busyUntil.set s (start + (made - 1) * (T_TX_NS + ardNs r) + T_TX_NS + T_ACK_NS),
-          air := w.air ++ [{ sender := s, pkt := k, attempts := made, ok := true }] }
+      (w.updRadio s (·.txDoneAcked rest made a)).stamp s
+        (start + (made - 1) * (T_TX_NS + ardNs r0) + T_TX_NS + T_ACK_NS)
+        { sender := s, pkt := k, attempts := made, ok := true }
     | none =>
-      let r := { r with txFifo := { e with pid := some pid } :: rest, flags := r.flags ||| 0x10,
-                        arcCnt := arc, plosCnt := min 15 (r.plosCnt + 1) }
-      { (w.setRadio s r) with
-          busyUntil := w.busyUntil.set s (start + made * (T_TX_NS + ardNs r)),
-          air := w.air ++ [{ sender := s, pkt := k, attempts := made, ok := false }] }
+      (w.updRadio s (·.txFailed e pid rest)).stamp s (start + made * (T_TX_NS + ardNs r0))
+        { sender := s, pkt := k, attempts := made, ok := false }
 
 /-- run transmit cycles of radio `s` while it is in TX mode with data and MAX_RT is not latched
     (at most one per FIFO level, hence the fuel 4) -/
